@@ -214,14 +214,22 @@ SHAPES = [
 ]
 
 
+def _gen_new(src, wd):
+    """__new__ defined or inherited: on the spec classes / the plain subclass, calling object.__new__ directly or deferring
+    along the MRO, and through an unrelated plain base class placed before or after the spec parent."""
+    for c in wd["classes"]:
+        if c["name"] in ("P", "M", "Q", "R") and src.chance(1, 4):
+            c["user_new"] = src.pick([True, "super", "super"]) if c["name"] in ("P", "M") else "super"
+        if c["name"] in ("M", "R", "Q") and src.chance(1, 6):
+            c["new_mixin"] = src.pick(["first", "last", "last", "after_plain"])
+
+
 @st.composite
 def conc_case(draw):
     src = grammar.HypSource(draw)
     wd = grammar.gen_world(src, PROFILE)
     wd["eager"] = False
-    for c in wd["classes"]:
-        if c["name"] in ("P", "M") and src.chance(1, 4):
-            c["user_new"] = True
+    _gen_new(src, wd)
     n = 2 + src.choice(2)
     triggers = [src.pick(TRIGGERS) for _ in range(n)]
     k = 1 + src.choice(3)
@@ -233,9 +241,7 @@ def conc_case(draw):
 def seq_case(draw):
     src = grammar.HypSource(draw)
     wd = grammar.gen_world(src, PROFILE)
-    for c in wd["classes"]:
-        if c["name"] in ("P", "M") and src.chance(1, 4):
-            c["user_new"] = True
+    _gen_new(src, wd)
     return {"kind": "seq", "world": wd, "trigger": src.pick(TRIGGERS)}
 
 
